@@ -71,6 +71,21 @@ def check_case(m, mult, lbmode, xdts, stats=None):
         inst2 = Instance("c05", supplied, src2, mult)
         src2.fill(1)
         src.fill(1)
+        # ... and in other legal memory layouts of the same matrix
+        layouts = []
+        if not M.is_symmetric(m):
+            base64 = np.array(m, np.int64)
+            big = np.zeros((2 * n, 2 * n), np.int64)
+            big[::2, ::2] = base64
+            for lname, arr in (
+                    ("Fortran-ordered array", np.asfortranarray(base64)),
+                    ("transposed view", np.ascontiguousarray(base64.T).T),
+                    ("strided view", big[::2, ::2])):
+                try:
+                    layouts.append((lname, np.asarray(Instance(
+                        "c05", supplied, arr, mult)).tolist()))
+                except (TypeError, ValueError):
+                    pass    # refused loudly
     except Exception as e:  # noqa  (a loud rejection is not a violation)
         return ("rejected", f"{type(e).__name__}: {e}")
     f = TourLength(inst)
@@ -81,6 +96,11 @@ def check_case(m, mult, lbmode, xdts, stats=None):
             base, observed=np.asarray(inst2).tolist(), expected=m,
             note=f"matrix handed over as {inst.dtype} array that the caller "
                  "overwrote afterwards"))
+    for lname, got in layouts:
+        if got != m:
+            return ("bad", "stored", dict(
+                base, observed=got, expected=m,
+                note=f"matrix handed over as {lname}"))
     if inst.n_cities != n or inst.shape != (n, n):
         return ("bad", "attr", dict(base, observed=[inst.n_cities,
                                                     list(inst.shape)]))
